@@ -116,20 +116,40 @@ theorem config_applied (ops : Ops DT Val) (c : ClassDesc DT Val) (cfg : Cfg Val)
   | none => rw [hc] at hsome; cases hsome
   | some y => exact ⟨y, rfl, by rw [hv]; simp [conv, hc]⟩
 
-/-- configured own properties (readonly, visibility, export, …) of a parameter that is not a limit are stored as
-validated by the property's datatype -/
+/-- configured own properties (readonly, visibility, export, group, description, …): for EVERY parameter of an accepted
+configuration (limit parameters included) the parameter object carries `ownAfter` — the class values with every configured
+property set, in the order written, to its value as converted by the property's datatype -/
 theorem config_applied_own (ops : Ops DT Val) (c : ClassDesc DT Val) (cfg : Cfg Val) (i : Instance DT Val)
-    (h : applyConfig ops c cfg = .ok i) (pd : ParamDesc DT Val) (dt0 : DT) (items : List (Name × Val))
-    (hpd : pd ∈ c.params) (hdt : pd.dt = some dt0) (hlim : pd.limit = none)
-    (hcfg : lookup pd.name cfg = some (.acc items) ∨ (lookup pd.name cfg = none ∧ items = [])) :
-    ∃ p ∈ i.params, p.name = pd.name ∧ ∀ a, applyEntries ops (classAcc pd) items = some a → p.own = a.own := by
+    (h : applyConfig ops c cfg = .ok i) (pd : ParamDesc DT Val) (hpd : pd ∈ c.params) :
+    ∃ p ∈ i.params, p.name = pd.name ∧ p.own = ownAfter ops pd.own ((cfgOf pd.name cfg).getD []) := by
   have acc := accepted_of_ok ops c cfg i h
   obtain ⟨outs, hrun, hi, _, herrs, _⟩ := accepted_run ops c cfg i acc
   obtain ⟨insts', o, hadd, ho⟩ := run_mem ops cfg c.params [] outs hrun pd hpd
-  have hst := startAcc_own ops insts' pd hlim
-  have pk := (param_ok ops insts' pd dt0 _ items o (by rw [hst]; simp [classAcc, hdt]) hcfg hadd (herrs o ho)).2
-  rw [hst] at pk
-  exact ⟨o.inst, by rw [hi]; exact List.mem_map_of_mem ho, addParam_name ops _ _ _ _ hadd, pk⟩
+  have hitems := addParam_items ops insts' pd cfg o hadd
+  obtain ⟨a, ha⟩ := Lemmas.ConfigDsl.addParam_entries ops insts' pd _ _ o hitems hadd
+  refine ⟨o.inst, by rw [hi]; exact List.mem_map_of_mem ho, addParam_name ops _ _ _ _ hadd, ?_⟩
+  have hown : o.inst.own = a.own := by
+    -- `o` is what `_handle_writes` made of `a`: own properties untouched
+    have hw : ∀ a', (handleWrites ops pd a').inst.own = a'.own := by
+      intro a'
+      unfold handleWrites
+      split
+      · rfl
+      · split
+        · rfl
+        · split
+          · simp only [startFromDefault]; split <;> rfl
+          · rfl
+    rcases hitems with he | ⟨he, hnil⟩
+    · rw [he] at hadd
+      simp only [addParam, ha, PRes.done.injEq] at hadd
+      rw [← hadd]; exact hw a
+    · rw [he] at hadd
+      simp only [addParam, PRes.done.injEq] at hadd
+      rw [hnil] at ha
+      simp only [applyEntries, Option.some.injEq] at ha
+      rw [← hadd, ← ha]; exact hw _
+  rw [hown, Lemmas.ConfigDsl.applyEntries_own ops _ _ a ha, (startAcc_value ops insts' pd).2]
 
 /-! ## module properties -/
 
@@ -558,6 +578,9 @@ example : ∃ i, applyConfig toyOps exClass exCfg = .ok i ∧ (exClass.params.ma
 
 theorem exClass_wf : WellFormed exClass :=
   ⟨by decide, by decide, by intro pd hpd hl; simp [exClass, exParam] at hpd; subst hpd; simp at hl⟩
+
+/-- `config_applied_own` on the example: `readonly=1` from the cfg is what the parameter object carries -/
+example : ownAfter toyOps exParam.own ((cfgOf "pa" exCfg).getD []) = [("readonly", 1)] := by decide
 
 /-- rejected: an unknown name -/
 example : Offence toyOps exClass (exCfg ++ [("zz", .prop (.bare 4))]) :=
